@@ -120,8 +120,46 @@ let hist2 f l ops =
     end;
     Buffer.add_string b (if !bad then "MODEL-ASSERT" else show idx (SegModel.stA !w) ^ "|" ^ show idx (SegModel.stB !w) ^ " ") end) ops;
   Buffer.contents b
+(* ghist: the container's OWN functions as regenerated by cxx2coq from SegmentedArray.h (Gen_ArrSqrt: GetCapacity, Reserve, Shrink,
+   Clear, AddBackCrt, SetCountCrt, pvDecCount with pvIncCapacity / pvDecCapacity / pvIncCount inside), run on the state
+   (mSegments : index -> segment id, mSegments_n, mCount).  The allocator answer `alloc` is the next fresh id. *)
+let ghist f l ops =
+  let l = z_of_string l in
+  let sq = String.sub f 0 2 = "sq" in
+  let seg = if sq then Fast.sq_seg l else Fast.cn_seg l in
+  let idx = if sq then Fast.sq_idx l else Fast.cn_idx l in
+  let cnt = if sq then Fast.sq_cnt l else (fun _ -> Fast.cn_cnt l) in
+  let nextid = ref 0 in
+  let alloc = fun _ -> let r = z_of_int !nextid in incr nextid; r in
+  let segs = ref (fun _ -> z_of_int (-1)) and n = ref (z_of_int 0) and c = ref (z_of_int 0) in
+  let b = Buffer.create 1024 and bad = ref "" in
+  let fail o = bad := (match o with GenPrelude.Stuck -> "GEN-STUCK" | GenPrelude.Fuel -> "GEN-FUEL" | _ -> "GEN-EXN") in
+  List.iter (fun tok -> if !bad = "" then begin
+    let (op, a, _) = split_op tok in
+    let za = z_of_string a in
+    (match op with
+     | 'a' | 'e' -> for _ = 1 to int_of_string a do if !bad = "" then
+                      (match Gen_ArrSqrt.coq_AddBackCrt seg alloc !segs !n !c with
+                       | GenPrelude.Ok (((_, s'), n'), c') -> segs := s'; n := n'; c := c' | o -> fail o) done
+     | 'r' -> (match Gen_ArrSqrt.coq_Reserve seg idx alloc !segs !n !c za with GenPrelude.Ok ((_, s'), n') -> segs := s'; n := n' | o -> fail o)
+     | 's' | 'S' -> (match Gen_ArrSqrt.coq_SetCountCrt seg idx cnt alloc !segs !n !c za with
+                     | GenPrelude.Ok (((_, s'), n'), c') -> segs := s'; n := n'; c := c' | o -> fail o)
+     | 'k' -> (match Gen_ArrSqrt.coq_ShrinkFit seg idx !segs !n !c with GenPrelude.Ok (_, n') -> n := n' | o -> fail o)
+     | 'K' -> (match Gen_ArrSqrt.coq_ShrinkTo seg idx !segs !n !c za with GenPrelude.Ok (_, n') -> n := n' | o -> fail o)
+     | 'c' | 'C' -> (match Gen_ArrSqrt.coq_Clear seg idx cnt !segs !n !c (op = 'C') with GenPrelude.Ok ((_, n'), c') -> n := n'; c := c' | o -> fail o)
+     | 'b' -> (* RemoveBack(k) = MOMO_CHECK(k <= mCount); pvDecCount(mCount - k) *)
+       if Z.leq (Z.of_string a) (zarith_of_z !c) then
+         (match Gen_ArrSqrt.pvDecCount seg cnt !segs !n !c (z_of_zarith (Z.sub (zarith_of_z !c) (Z.of_string a))) with
+          | GenPrelude.Ok (_, c') -> c := c' | o -> fail o)
+     | _ -> bad := "GEN-BAD-OP");
+    if !bad <> "" then Buffer.add_string b !bad else begin
+      let top = if Z.sign (zarith_of_z !n) = 0 then "-1" else string_of_z (!segs (z_of_zarith (Z.pred (zarith_of_z !n)))) in
+      Buffer.add_string b (Printf.sprintf "%s/%s/%s/%s " (string_of_z !c) (string_of_z !n)
+                             (string_of_z (Gen_ArrSqrt.coq_GetCapacity idx !segs !n !c)) top) end end) ops;
+  Buffer.contents b
 let () = iter_lines (fun line ->
   match words line with
+  | "ghist" :: f :: l :: ops -> print_endline (ghist f l ops)
   | "hist" :: f :: l :: ops -> print_endline (hist f l ops)
   | "hist2" :: f :: l :: ops -> print_endline (hist2 f l ops)
   | ["lg64"; v] -> print_endline (string_of_z (Fast.log2_64 (z_of_string v)))
